@@ -17,3 +17,5 @@ open Biogo.Properties.C02
 #print axioms inline_seq_roundtrip
 #print axioms region_write_count
 #print axioms inline_seq_write_count
+#print axioms inline_seq_writer_is_fasta
+#print axioms inline_seq_roundtrip_via_fasta
